@@ -574,7 +574,8 @@ def _detect_with_segment_refine(
         # Iterate subintervals
         for m in range(r + 1):
             s_lo = m * step
-            s_hi = (m + 1) * step
+            # the last subinterval must end exactly at the segment end: (r + 1) * step can round below 1.0
+            s_hi = (m + 1) * step if m < r else 1.0
             if s_hi > 1.0 + 1e-15:
                 break
             if accept_left and m == 0:
